@@ -106,6 +106,23 @@ func craftedInputs() []epInput {
 		many = append(many, ifdEntry{uint16(0x9000 + i), 3, 1, []byte{1, 0}})
 	}
 	add("ifd0-100-entries", tiffLE(many, 0, make([]byte, 64)))
+	// more out-of-line values than the 84 slots of the pending-tag buffer, in ascending and in descending offset order (a
+	// tag with an offset below every pending one arrives when the buffer is full), in IFD0 and behind an Exif pointer
+	for _, n := range []int{83, 84, 85, 86, 100, 128} {
+		for _, desc := range []bool{false, true} {
+			base := 8 + 2 + 12*n + 4
+			var es []ifdEntry
+			for i := 0; i < n; i++ {
+				k := i
+				if desc {
+					k = n - 1 - i
+				}
+				es = append(es, ifdEntry{[]uint16{0x013b, 0x8298, 0x0131, 0x010e, 0x9c9b}[i%5], 2, 8, le32(uint32(base + 8*k))})
+			}
+			name := fmt.Sprintf("ifd0-%d-out-of-line-values-%s", n, map[bool]string{false: "ascending", true: "descending"}[desc])
+			add(name, tiffLE(es, 0, bytes.Repeat([]byte("abcdefg\x00"), n+2)))
+		}
+	}
 	// 80 string values that all lie beyond the end of a 1 KB file: once the stream has ended, the remaining pending tags
 	// must not cost a read each (C02 read budget); bare, and inside JPEG / PNG below
 	var beyond []ifdEntry
